@@ -159,6 +159,13 @@ class PhasedISwapPowGate(eigen_gate.EigenGate):
         )
         return args.available_buffer
 
+    def _has_stabilizer_effect_(self) -> bool | None:
+        if self._is_parameterized_():
+            return None
+        # Stabilizer simulators act through _decompose_, so the Z and ISWAP powers it yields have to
+        # be Clifford gates one by one; that their product is one (phase_exponent=0.25) is not enough.
+        return self.exponent % 1 == 0 and self._phase_exponent % 0.5 == 0
+
     def _decompose_(self, qubits: Sequence[cirq.Qid]) -> Iterator[cirq.OP_TREE]:
         if len(qubits) != 2:
             raise ValueError(f'Expected two qubits, got {len(qubits)}')
